@@ -28,9 +28,12 @@ def DATE(
         year = 1900 + year
 
     # Excel starts counting at 1 and today is inclusive, thus -2
-    delta = relativedelta(
-        years=year - 1900, months=int(month) - 1, days=int(day) - 1)
-    result = utils.EXCEL_EPOCH + delta
+    try:
+        delta = relativedelta(
+            years=int(year) - 1900, months=int(month) - 1, days=int(day) - 1)
+        result = utils.EXCEL_EPOCH + delta
+    except (OverflowError, ValueError):
+        raise xlerrors.NumExcelError('Date result after 9999-12-31')
 
     if result < utils.EXCEL_EPOCH:
         raise xlerrors.NumExcelError(
@@ -155,8 +158,11 @@ def EDATE(
     https://support.office.com/en-us/article/
         edate-function-3c920eb2-6e66-44e7-a1f5-753ae47ee4f5
     """
-    delta = relativedelta(months=int(months))
-    edate = utils.number_to_datetime(int(start_date)) + delta
+    try:
+        delta = relativedelta(months=int(months))
+        edate = utils.number_to_datetime(int(start_date)) + delta
+    except (OverflowError, ValueError):
+        raise xlerrors.NumExcelError('Date result after 9999-12-31')
 
     if edate < utils.EXCEL_EPOCH:
         raise xlerrors.NumExcelError(
@@ -177,8 +183,11 @@ def EOMONTH(
     https://support.office.com/en-us/article/
         eomonth-function-7314ffa1-2bc9-4005-9d66-f49db127d628
     """
-    delta = relativedelta(months=int(months))
-    edate = utils.number_to_datetime(int(start_date)) + delta
+    try:
+        delta = relativedelta(months=int(months))
+        edate = utils.number_to_datetime(int(start_date)) + delta
+    except (OverflowError, ValueError):
+        raise xlerrors.NumExcelError('Date result after 9999-12-31')
 
     if edate < utils.EXCEL_EPOCH:
         raise xlerrors.NumExcelError(
